@@ -353,8 +353,9 @@ def check_scope_per_item(ctx, fl, rule: str, consequence: str, funcs=("FlowIRCon
                     if inner:
                         continue
                     # is x a substitution scope inside this loop?
-                    as_scope = any(isinstance(k, ast.Call) and last_attr(k) in ("fill_in", "interpolate", "replace_strings", "expand_vars") and any(
+                    as_scope = any(isinstance(k, ast.Call) and last_attr(k) in ("fill_in", "interpolate", "replace_strings", "expand_vars") and (any(
                         kw.arg in ("context", "variables") and isinstance(kw.value, ast.Name) and kw.value.id == x for kw in k.keywords)
+                        or (len(k.args) >= 2 and isinstance(k.args[1], ast.Name) and k.args[1].id == x))
                         for st2 in lp.body for k in ast.walk(st2))
                     if not as_scope:
                         continue
@@ -782,6 +783,25 @@ def run(ctx) -> None:
                 ctx.ob("C04.R6-typed-options", c, True, "option %s has a string-safe converter" % ".".join(path), construct=cons)
             break
     ctx.floor("C04.R6-typed-options", n_typed, 15, "typed (bool/int/float) options in the component schema")
+    # a converter keeps every value that was given: it may special-case None ('is None' / 'is not None'), never the value's truthiness -
+    # 'int(value) if value else None' turns an explicit 0 (maxRestarts: 0, "may not restart") of the winning layer into None, i.e. the
+    # built-in default reappears over the top layer
+    cct_fn = m.functions.get("FlowIR.convert_component_types")
+    n_conv = 0
+    if cct_fn is not None:
+        for conv_fn in [x for x in ast.walk(cct_fn) if isinstance(x, ast.FunctionDef) and x is not cct_fn and len(x.args.args) == 1]:
+            pname = conv_fn.args.args[0].arg
+            n_conv += 1
+            tests = [x.test for x in ast.walk(conv_fn) if isinstance(x, (ast.If, ast.IfExp, ast.While))]
+            tests += [v for x in ast.walk(conv_fn) if isinstance(x, ast.BoolOp) for v in x.values]
+            truthy = [t for t in tests if (isinstance(t, ast.Name) and t.id == pname)
+                      or (isinstance(t, ast.UnaryOp) and isinstance(t.op, ast.Not) and isinstance(t.operand, ast.Name) and t.operand.id == pname)]
+            ctx.ob("C04.R6-typed-options", truthy[0] if truthy else conv_fn, not truthy,
+                   "the converter %s keeps every value that is not None" % conv_fn.name if not truthy else
+                   "the converter %s decides on the TRUTHINESS of the value (%s): an explicit 0 given by the winning layer - 'maxRestarts: 0', the component "
+                   "may not be restarted - is converted to None and the built-in default takes its place" % (conv_fn.name, short(truthy[0], 30)),
+                   construct="convert_component_types.%s: no truthiness test of the value" % conv_fn.name)
+    ctx.floor("C04.R6-typed-options", n_conv, 2, "one-argument converters nested in convert_component_types")
     for path, c in sorted(conv.items()):
         ok = path in schema
         ctx.ob("C04.R6-typed-options", c, ok, "converter path %s is a schema path" % ".".join(path) if ok else
